@@ -62,7 +62,7 @@ ASSERT = {
   'tt':   {'p.sound': ['C14'], 'p.absent': ['C14'], 'p.aftersave': ['C14']},
   'order': {'p.perm': ['C19'], 'p.sorted': ['C19'], 'p.strscore': ['C03', 'C19']},
   'time': {'p.ltclock': ['C08', 'C05'], 'p.ltmovetime': ['C08', 'C05'], 'p.indep': ['C08']},
-  'go':   {'p.total': ['C07']},
+  'go':   {'p.total': ['C07'], 'p.reported': ['C07']},
   'gotime': {'p.ltclock': ['C08'], 'p.ltmovetime': ['C08']},
   'prep': {'p.garbage': ['C07']},
   'gof':  {'p.total': ['C07'], 'p.faithful': ['C07']},
@@ -79,7 +79,7 @@ ASSERT = {
 # operations whose answers are compared even outside the legal-position domain
 ALWAYS = {'fen', 'att', 'magic', 'tt', 'time', 'go', 'gof', 'gotime', 'prep', 'search', 'facts', 'hashdiff', 'ecache', 'dialog', 'timed', 'conc', 'deep', 'deepseq', 'procuci'}
 # operations where, outside the domain (s.dom=0), only the assertions are judged (the property claims totality there, not values)
-TOTAL_ONLY_OOD = {'go': {'p.total'}, 'gof': {'p.total'}, 'fen': {'p.total'}, 'dialog': set()}
+TOTAL_ONLY_OOD = {'go': {'p.total', 'p.reported'}, 'gof': {'p.total'}, 'fen': {'p.total'}, 'dialog': set()}
 
 
 def sh(cmd, cwd=None, env=None, timeout=None, stdin=None):
